@@ -13,7 +13,8 @@ EXPLANATION = (
     "from that guard, no path drops the guard before the last send/receive, and the guarded socket is "
     "reachable for I/O only through the mutex. Together: request and reply of one call form one "
     "critical section, a second acquisition (self-deadlock) is impossible."
-    ' Also: (L5) no function that (transitively) locks the endpoint mutex is called while its guard is live; (L6) size pre-checks on the reply path agree with those made before the request was written (C08/S9); (L7-L9) C08/S3, C18/B1, C04/P4.')
+    ' Also: (L5) no function that (transitively) locks the endpoint mutex is called while its guard is live; (L6) size pre-checks on the reply path agree with those made before the request was written (C08/S9); (L7-L9) C08/S3, C18/B1, C04/P4.'
+    ' Round 5: (L1) every endpoint mutex is taken with the blocking lock(); (L13-L17) cross-listed C18/B3, C03/R4, C14/Q4, C03/R1, C07/G1.')
 NOT_DECIDED = "Fairness/liveness of std::sync::Mutex, the peer's behaviour, actual interleavings."
 
 RAW_IO = {"send_with_fds", "recv_with_fds"}
@@ -107,7 +108,30 @@ def thorough(ctx, chk):
     run_on(fb, chk, tag="base/")
 
 
+def blocking_locks(fb, chk, tag=""):
+    """Every acquisition of an endpoint mutex waits: a `try_lock` gives up (or panics on `unwrap`) when another caller holds
+    the lock between its request and its reply, so that call never completes."""
+    n = 0
+    for f in fb.fns.values():
+        if f.crate != "vhost" or "vhost_user" not in (f.file or ""):
+            continue
+        for bb, t in f.calls():
+            c = callee_of(t)
+            if c is None or c.get("name") not in ("lock", "try_lock"):
+                continue
+            rty = ((t.get("atys") or [""])[0]) + " " + (c.get("self_ty") or "")
+            if "Mutex<" not in rty:
+                continue
+            n += 1
+            chk.check(c["name"] == "lock", "L1", "%sblocking:%s" % (tag, f.short), "mutex taken with lock()",
+                      "%s takes the endpoint mutex with try_lock(): a caller that arrives while another transaction is in flight "
+                      "fails or panics instead of waiting" % f.short, f.loc(t["line"]))
+    if n == 0:
+        chk.bad("L1", tag + "blocking:sites", "no mutex acquisition found in the vhost-user modules")
+
+
 def run_on(fb, chk, tag=""):
+    blocking_locks(fb, chk, tag)
     gt = guarded_types(fb)
     if len(gt) < 3:
         chk.anchor_missing("L1", tag + "guarded endpoint types", "found %s" % sorted(gt))
